@@ -53,18 +53,23 @@ def _ldh(z3):
 
 
 def _hostname(z3):
-    # dot-separated non-empty LDH labels whose last label is not all-numeric (a DNS host name, not an address)
-    label = z3.Plus(_ldh(z3))
-    last = z3.Concat(z3.Star(_ldh(z3)), z3.Union(z3.Range("a", "z"), _lit(z3, "-")), z3.Star(_ldh(z3)))
-    return z3.Concat(z3.Star(z3.Concat(label, _lit(z3, "."))), last)
+    # letters/digits/hyphens/dots, not starting with a dot, ending in a letter (the top-level label is not a number)
+    body = z3.Union(_ldh(z3), _lit(z3, "."))
+    return z3.Concat(z3.Option(z3.Concat(_ldh(z3), z3.Star(body))), z3.Range("a", "z"))
+
+
+def _canon(z3):
+    return z3.Star(z3.Union(z3.Range(chr(0), "@"), z3.Range("[", chr(127))))
 
 
 LANG = {
+    # canonical host / domain text: ASCII without upper-case letters (lower() is the identity)
+    "canonical": (r"[\x00-@\[-\x7f]*", _canon),
     # textual IPv4 address (over-approximation: any four dot-separated digit groups)
     "ip4": (r"\d+\.\d+\.\d+\.\d+", _ip4),
     # textual IPv6 address (over-approximation: hex digits and colons with at least one colon, optional dotted-quad tail)
     "ip6": (r"[0-9a-f:]*:[0-9a-f:]*(\d+\.\d+\.\d+\.\d+)?", _ip6),
-    "hostname": (r"([0-9a-z-]+\.)*[0-9a-z-]*[a-z-][0-9a-z-]*", _hostname),
+    "hostname": (r"([0-9a-z-][0-9a-z.-]*)?[a-z]", _hostname),
 }
 # re.ASCII for \d in the python patterns
 LANG = {k: (p.replace(r"\d", "[0-9]"), b) for k, (p, b) in LANG.items()}
@@ -93,8 +98,10 @@ def spec_domain_match(vc, a, d):
     return Or(a == d, And(endswith(a, "." + d), Not(is_ip(vc, a))))
 
 
-DM_OPTS = dict(extra_inline_roots=HTTP_ROOT, exact_search=True, strip_facts=True, rfind_uf=True)
-DM_FUNCS = [M + ":domain_match", "http.cookiejar:domain_match", "http.cookiejar:is_HDN"]
+DM_OPTS = dict(extra_inline_roots=HTTP_ROOT, exact_search=True, strip_facts=True, rfind_uf=True, lower_identity=True)
+CJ = "http.cookiejar:domain_match"
+from http import cookiejar as _cookiejar
+_REAL = [_cookiejar.domain_match]     # kept in a list: vc.summary patches every module-level alias of the function
 
 
 def K_inner(a, d):
@@ -102,8 +109,32 @@ def K_inner(a, d):
     return And(contains(a, "." + d), Not(endswith(a, "." + d)), a != d)
 
 
-def _call_dm(vc, a, b):
-    out = vc.call(M + ":domain_match", a, b)
+def ends_with_dot_digits(vc, a):
+    """the text ends in "." digits (optionally followed by a newline): what the library takes for an IPv4 address"""
+    if vc.mode == "native" or not is_sym(a):
+        import re
+        return re.search(r"\.[0-9]+$", a) is not None
+    z3 = _z3()
+    return SBool(z3.InRe(a.t, z3.Concat(z3.Full(z3.ReSort(z3.StringSort())), _lit(z3, "."), z3.Plus(_d(z3)), z3.Option(_lit(z3, "\n")))))
+
+
+def library_hdn(vc, a):
+    """intermediate lemma vocabulary: non-empty, no leading/trailing dot, does not end in .digits"""
+    return And(len_(a) > 0, Not(startswith(a, ".")), Not(endswith(a, ".")), Not(ends_with_dot_digits(vc, a)))
+
+
+def library_post(vc, A, B, r):
+    """Proved post-condition of http.cookiejar.domain_match(A, B) on canonical input (scenario cookiejar.domain_match) =
+    assumed contract of the call inside stickycookie.domain_match (scenario domain_match.*).  An intermediate lemma: the
+    obligations taken from RFC 6265 are stated on stickycookie.domain_match."""
+    return [
+        ("lib.true_only_if_equal_or_dotted_inner_match", Implies(And(r, A != B), And(startswith(B, "."), contains(A, B), library_hdn(vc, A)))),
+        ("lib.equal_matches", Implies(A == B, r)),
+        ("lib.dotted_suffix_of_hostname_matches", Implies(And(startswith(B, "."), library_hdn(vc, A), library_hdn(vc, B[1:]), contains(A, B)), r)),
+    ]
+
+
+def _bool_result(vc, out):
     vc.ensure("no_exception", out.ok)
     if not out.ok:
         return None
@@ -114,43 +145,87 @@ def _call_dm(vc, a, b):
     return r
 
 
-@scenario("domain_match.wellformed", functions=DM_FUNCS, **DM_OPTS)
+@scenario("cookiejar.domain_match", functions=[CJ, "http.cookiejar:is_HDN"], z3_timeout_ms=2000, **DM_OPTS)
+def s_cj(vc):
+    """The standard library function that actually runs (pure Python, interpreted from its source, not trusted)."""
+    A = vc.sym_str("A")
+    B = vc.sym_str("B")
+    vc.assume(And(rx(vc, A, "canonical"), rx(vc, B, "canonical")))
+    r = _bool_result(vc, vc.call(CJ, A, B))
+    if r is None:
+        return
+    for name, cond in library_post(vc, A, B, r):
+        vc.ensure(name, cond)
+
+
+def install_library_contract(vc):
+    """http.cookiejar.domain_match(A, B) replaced by its proved contract (library_post), case-split so that every path
+    carries unconditional facts"""
+
+    def summ(v, A, B):
+        if v.mode == "native":
+            return _REAL[0](A, B)
+        if v.branch(A == B):
+            return True                                   # lib.equal_matches
+        r = v.fresh_bool("cj_dm")
+        if v.branch(r):
+            v.assume(And(startswith(B, "."), contains(A, B), library_hdn(v, A)))     # lib.true_only_if_...
+            return True
+        v.assume(Not(And(startswith(B, "."), library_hdn(v, A), library_hdn(v, B[1:]), contains(A, B))))   # lib.dotted_suffix_...
+        return False
+
+    vc.summary(CJ, summ)
+
+
+def lemma(vc, name, cond):
+    """cut: prove cond on this path, then use it"""
+    vc.ensure("lemma." + name, cond)
+    vc.assume(cond)
+
+
+@scenario("domain_match.wellformed", functions=[M + ":domain_match"], **DM_OPTS)
 def s_dm(vc):
-    """Domain attribute = optional leading dot ++ d, d non-empty without leading/trailing dot; canonical (lower-case) inputs
-    (the general case is reduced to this one by scenario domain_match.case_insensitive)."""
+    """Domain attribute = optional leading dot ++ d, d non-empty without leading/trailing dot; canonical (lower-case) inputs."""
     a = vc.sym_str("a")
     d = vc.sym_str("d")
     lead = vc.case("leading_dot", ["", "."])
     b = lead + d
-    vc.assume(lower_(vc, a) == a)
-    vc.assume(lower_(vc, b) == b)
+    vc.assume(And(rx(vc, a, "canonical"), rx(vc, d, "canonical")))
     vc.assume(len_(d) > 0)     # RFC 6265 §5.2.3: empty Domain attribute value => behaviour undefined / attribute ignored
     vc.assume(And(Not(startswith(d, ".")), Not(endswith(d, "."))))
-    r = _call_dm(vc, a, b)
+    install_library_contract(vc)
+    r = _bool_result(vc, vc.call(M + ":domain_match", a, b))
     if r is None:
         return
     vc.ensure_kf("sound.suffix_or_equal", Implies(r, Or(a == d, endswith(a, "." + d))), "KF-C54-1", K_inner(a, d))
-    vc.ensure("sound.not_an_ipv4_address", Implies(And(r, a != d), Not(rx(vc, a, "ip4"))))
-    vc.ensure("sound.not_an_ipv6_address", Implies(And(r, a != d), Not(rx(vc, a, "ip6"))))
+    if vc.branch(And(r, a != d)):
+        if vc.branch(a == b):
+            # only with a leading dot: the "host" is the dotted Domain attribute itself -- no address starts with a dot
+            lemma(vc, "host_starts_with_dot", startswith(a, "."))
+        else:
+            lemma(vc, "host_contains_dot", contains(a, "."))
+            lemma(vc, "host_does_not_end_in_dot_digits", Not(ends_with_dot_digits(vc, a)))
+        vc.ensure("sound.not_an_ipv4_address", Not(rx(vc, a, "ip4")))
+        vc.ensure("sound.not_an_ipv6_address", Not(rx(vc, a, "ip6")))
     # non-vacuity (not demanded by the statement): ordinary host names match themselves and their dotted parent domains
-    host_like = And(rx(vc, a, "hostname"), rx(vc, d, "hostname"))
-    if lead == ".":
-        vc.ensure("complete.dotted_domain", Implies(And(host_like, Or(a == d, endswith(a, "." + d))), r))
-    else:
-        vc.ensure("complete.equal_host", Implies(a == d, r))
+    if vc.branch(a == d):
+        vc.ensure("complete.equal_host", r)
+    elif lead == ".":
+        host_like = And(rx(vc, a, "hostname"), rx(vc, d, "hostname"))
+        vc.ensure("complete.dotted_parent_domain", Implies(And(host_like, endswith(a, "." + d)), r))
 
 
-@scenario("domain_match.malformed_domain", functions=DM_FUNCS, **DM_OPTS)
+@scenario("domain_match.malformed_domain", functions=[M + ":domain_match"], **DM_OPTS)
 def s_dm_mal(vc):
     """Domain attribute values with further leading dots or trailing dots (not a valid domain-value, RFC 6265 §4.1.1)."""
     a = vc.sym_str("a")
     b = vc.sym_str("b")
-    vc.assume(lower_(vc, a) == a)
-    vc.assume(lower_(vc, b) == b)
     d = cookie_domain(b)
+    vc.assume(And(rx(vc, a, "canonical"), rx(vc, b, "canonical")))
     vc.assume(len_(d) > 0)
     vc.assume(Or(startswith(d, "."), endswith(d, ".")))
-    r = _call_dm(vc, a, b)
+    install_library_contract(vc)
+    r = _bool_result(vc, vc.call(M + ":domain_match", a, b))
     if r is None:
         return
     # KF-C54-3: b.strip(".") removes more than the one leading dot (further leading dots, trailing dots)
@@ -164,3 +239,268 @@ def strip_dots(vc, b):
     from pyvc import lib
     z3 = _z3()
     return SStr(lib.uf("strip_'.'", z3.StringSort(), z3.StringSort())(b.t))
+
+
+# ---------------------------------------------------------------------------------------------
+# ckey / response / request
+
+from props.httpstream import mk_request, mk_response, mk_flow, mk_headers
+
+ATTR_SHAPES = {
+    "none": [],
+    "domain": [("Domain", "dom0")],
+    "path": [("path", "path0")],
+    "both": [("domain", "dom0"), ("Path", "path0")],
+    "twice": [("domain", "dom0"), ("DOMAIN", "dom1"), ("PATH", "path0"), ("path", "path1"), ("secure", None)],
+}
+
+
+def mk_attrs(vc, shape):
+    syms = {}
+    pairs = []
+    for k, v in ATTR_SHAPES[shape]:
+        if v is not None and v not in syms:
+            syms[v] = vc.sym_str(v)
+        pairs.append((k, syms[v] if v is not None else None))
+    attrs = vc.new("mitmproxy.net.http.cookies:CookieAttrs", fields=tuple(pairs))
+    return attrs, syms
+
+
+def mk_req_flow(vc, host, port, path=b"/"):
+    req = mk_request(vc, host=host, port=port, path=path)
+    return mk_flow(vc, mk_client(vc), mk_server(vc), req)
+
+
+@scenario("ckey", functions=[M + ":ckey"])
+def s_ckey(vc):
+    shape = vc.case("attrs", list(ATTR_SHAPES))
+    attrs, syms = mk_attrs(vc, shape)
+    host = vc.sym_str("host")
+    port = vc.sym_int("port", lo=0, hi=65535)
+    flow = mk_req_flow(vc, host, port)
+    out = vc.call(M + ":ckey", attrs, flow)
+    vc.ensure("no_exception", out.ok)
+    if not out.ok:
+        return
+    r = out.result
+    vc.ensure("triple", isa(r, tuple) and len(r) == 3)
+    if not (isa(r, tuple) and len(r) == 3):
+        return
+    # RFC 6265 §5.2: the LAST Domain / Path attribute counts, attribute names are case-insensitive
+    want_dom = {"none": host, "path": host, "domain": syms.get("dom0"), "both": syms.get("dom0"), "twice": syms.get("dom1")}[shape]
+    want_path = {"none": "/", "domain": "/", "path": syms.get("path0"), "both": syms.get("path0"), "twice": syms.get("path1")}[shape]
+    vc.ensure("domain_is_last_domain_attribute_or_host", r[0] == want_dom)
+    vc.ensure("port_is_request_port", r[1] == port)
+    vc.ensure("path_is_last_path_attribute_or_root", r[2] == want_path)
+
+
+SC = M + ":StickyCookie"
+
+
+def deep_eq(vc, a, b):
+    """structural equality of nested python lists/tuples with symbolic leaves (shapes are concrete)"""
+    if isinstance(a, (list, tuple)) and isinstance(b, (list, tuple)):
+        if len(a) != len(b):
+            return False
+        conj = [deep_eq(vc, x, y) for x, y in zip(a, b)]
+        if any(c is False for c in conj):
+            return False
+        conj = [c for c in conj if c is not True]
+        return And(*conj) if conj else True
+    if isinstance(a, (list, tuple)) or isinstance(b, (list, tuple)):
+        return False
+    return vc.eq(a, b)
+
+
+def key_items(k):
+    return list(k.items) if isinstance(k, STuple) else list(k)
+
+
+def jar_snapshot(vc, jar):
+    """jar as [(key triple as list, [(name, value), ...]), ...] in insertion order"""
+    if vc.mode == "sym":
+        return [(key_items(k), [(n, v) for n, v in d.items]) for k, d in jar.items]
+    return [(list(k), list(d.items())) for k, d in jar.items()]
+
+
+def mk_jar(vc, entries):
+    import collections
+    if vc.mode == "sym":
+        from pyvc.libx_http2 import SDefaultDict
+        return SDefaultDict(SConst(dict), [(lift(k), vc.dict(list(d))) for k, d in entries])
+    return collections.defaultdict(dict, [(k, dict(d)) for k, d in entries])
+
+
+def install_dm_stub(vc, calls, results):
+    """stickycookie.domain_match has its own contract (scenarios domain_match.*): here it is an arbitrary predicate whose
+    arguments are recorded"""
+
+    def dm(v, a, b):
+        calls.append((a, b))
+        return results[len(calls) - 1]
+
+    vc.summary(M + ":domain_match", dm)
+
+
+@scenario("response", functions=[SC + ".response", M + ":ckey"])
+def s_response(vc):
+    has_flt = vc.case("filter_set", [True, False])
+    shape = vc.case("attrs", ["none", "domain", "both"])
+    has_entry = vc.case("jar", ["empty", "one_entry"]) == "one_entry"
+    attrs, syms = mk_attrs(vc, shape)
+    host, port = vc.sym_str("host"), vc.sym_int("port", lo=0, hi=65535)
+    name, value = vc.sym_str("name"), vc.sym_str("value")
+    old_key = (vc.sym_str("kdom"), vc.sym_int("kport", lo=0, hi=65535), vc.sym_str("kpath"))
+    n0, v0 = vc.sym_str("n0"), vc.sym_str("v0")
+    pre = [(old_key, [(n0, v0)])] if has_entry else []
+    jar = mk_jar(vc, pre)
+    flow = mk_req_flow(vc, host, port)
+    flow.response = mk_response(vc)
+    addon = vc.new(SC, jar=jar, flt=vc.new("mitmproxy.flowfilter:FAll") if has_flt else None)
+    # Set-Cookie parsing (Response.cookies -> cookies.parse_set_cookie_headers) is covered by T2; here: one parsed cookie
+    vc.summary("mitmproxy.http:Response._get_cookies", lambda v, self_: v.lift(((name, (value, attrs)),)))
+    expired = vc.sym_bool("expired")
+    exp_calls = []
+
+    def is_expired(v, at):
+        exp_calls.append(at)
+        return expired
+
+    vc.summary("mitmproxy.net.http.cookies:is_expired", is_expired)
+    dm_calls, matches = [], vc.sym_bool("domain_matches")
+    install_dm_stub(vc, dm_calls, [matches])
+    out = vc.call(SC + ".response", addon, flow)
+    vc.ensure("no_exception", out.ok)
+    if not out.ok:
+        return
+    snap = jar_snapshot(vc, addon.jar)
+    pre_snap = [(list(k), list(d)) for k, d in pre]
+    if not has_flt:
+        vc.ensure("inactive.jar_unchanged", deep_eq(vc, snap, pre_snap))
+        vc.ensure("inactive.no_match_attempted", len(dm_calls) == 0)
+        return
+    dom = {"none": host, "domain": syms.get("dom0"), "both": syms.get("dom0")}[shape]
+    path = {"none": "/", "domain": "/", "both": syms.get("path0")}[shape]
+    new_key = [dom, port, path]
+    vc.ensure("domain_checked_against_responding_host", And(len(dm_calls) == 1, deep_eq(vc, list(dm_calls[0]), [host, dom]) if dm_calls else False))
+    if not vc.branch(matches):
+        vc.ensure("foreign_domain.not_stored", deep_eq(vc, snap, pre_snap))
+        return
+    vc.ensure("expiry_decided_on_this_cookies_attributes", len(exp_calls) == 1 and exp_calls[0] is attrs)
+    same_key = has_entry and vc.branch(deep_eq(vc, list(old_key), new_key))
+    if vc.branch(expired):
+        if same_key and vc.branch(name == n0):
+            vc.ensure("expired.removed_and_empty_entry_dropped", deep_eq(vc, snap, []))
+        else:
+            vc.ensure("expired.nothing_else_changes", deep_eq(vc, snap, pre_snap))
+        return
+    if same_key:
+        if vc.branch(name == n0):
+            vc.ensure("stored.replaces_same_name", deep_eq(vc, snap, [(list(old_key), [(n0, value)])]))
+        else:
+            vc.ensure("stored.added_to_entry", deep_eq(vc, snap, [(list(old_key), [(n0, v0), (name, value)])]))
+    else:
+        vc.ensure("stored.under_domain_port_path", deep_eq(vc, snap, pre_snap + [(new_key, [(name, value)])]))
+
+
+def uri_path(vc, target):
+    """path portion of the request target (RFC 6265 §5.1.4: the uri-path excludes the query)"""
+    if vc.mode == "native" or not is_sym(target):
+        return target.split("?", 1)[0]
+    z3 = _z3()
+    i = z3.IndexOf(target.t, z3.StringVal("?"), 0)
+    return SStr(z3.If(i >= 0, z3.SubString(target.t, 0, i), target.t))
+
+
+def spec_path_match(vc, target, c):
+    """RFC 6265 §5.1.4: request-path r = uri-path of the target; r == c, or c is a prefix of r and (c ends in "/" or the
+    first character of r after c is "/")"""
+    r = uri_path(vc, target)
+    n = len_(c)
+    return Or(r == c, And(startswith(r, c), Or(endswith(c, "/"), r[n:n + 1] == "/")))
+
+
+MARK = "name=value; formatted"
+HEADERS_PRE = {
+    "none": ([], [(b"cookie", MARK.encode())]),
+    "cookie": ([(b"Cookie", b"old=1")], [(b"Cookie", MARK.encode())]),
+    "other": ([(b"X-Other", b"1")], [(b"X-Other", b"1"), (b"cookie", MARK.encode())]),
+}
+
+
+def header_fields(vc, req):
+    h = req.data.headers
+    f = h.fields["fields"] if isinstance(h, SObj) else h.fields
+    return [list(x.items) if isinstance(x, STuple) else list(x) for x in (f.items if isinstance(f, (STuple, SList)) else f)]
+
+
+@scenario("request", functions=[SC + ".request"])
+def s_request(vc):
+    has_flt = vc.case("filter_set", [True, False])
+    hshape = vc.case("headers", list(HEADERS_PRE))
+    host, port = vc.sym_str("host"), vc.sym_int("port", lo=0, hi=65535)
+    pathb = vc.sym_bytes("path")
+    import z3 as _z
+    if vc.mode == "sym":
+        vc.assume(SBool(_z.InRe(pathb.t, _z.Star(_z.Range(chr(0), chr(127))))))     # ASCII request target (others: T2)
+        path = SStr(pathb.t)
+    else:
+        vc.assume(all(c < 128 for c in pathb))
+        path = pathb.decode("ascii")
+    keys = [(vc.sym_str(f"dom{j}"), vc.sym_int(f"port{j}", lo=0, hi=65535), vc.sym_str(f"path{j}")) for j in range(2)]
+    items = [[(vc.sym_str("n00"), vc.sym_str("v00")), (vc.sym_str("n01"), vc.sym_str("v01"))], [(vc.sym_str("n10"), vc.sym_str("v10"))]]
+    vc.assume(items[0][0][0] != items[0][1][0])                       # dict keys of one entry are distinct
+    vc.assume(Not(deep_eq(vc, list(keys[0]), list(keys[1]))))         # jar keys are distinct
+    jar = mk_jar(vc, list(zip(keys, items)))
+    pre_fields, post_fields = HEADERS_PRE[hshape]
+    req = mk_request(vc, host=host, port=port, path=pathb, headers=mk_headers(vc, pre_fields))
+    flow = mk_flow(vc, mk_client(vc), mk_server(vc), req)
+    addon = vc.new(SC, jar=jar, flt=vc.new("mitmproxy.flowfilter:FAll") if has_flt else None)
+    filter_matches = vc.sym_bool("filter_matches")
+    vc.summary("mitmproxy.flowfilter:match", lambda v, flt, f: filter_matches)
+    dm_calls = []
+    dms = [vc.sym_bool("dm0"), vc.sym_bool("dm1")]
+    install_dm_stub(vc, dm_calls, dms)
+    formatted = []
+
+    def fmt(v, lst):
+        formatted.append(lst)
+        return v.lift(MARK)
+
+    vc.summary("mitmproxy.net.http.cookies:format_cookie_header", fmt)
+    out = vc.call(SC + ".request", addon, flow)
+    vc.ensure("no_exception", out.ok)
+    if not out.ok:
+        return
+    vc.ensure("jar_unchanged", deep_eq(vc, jar_snapshot(vc, addon.jar), [(list(k), list(d)) for k, d in zip(keys, items)]))
+    fields = header_fields(vc, flow.request)
+    meta = flow.metadata
+    has_meta = (len(meta.items) if vc.mode == "sym" else len(meta)) > 0
+    observed = []
+    if formatted:
+        lst = formatted[0]
+        observed = [key_items(x) for x in (lst.items if vc.mode == "sym" else lst)]
+    vc.ensure("formatted_at_most_once", len(formatted) <= 1)
+    active = has_flt and vc.branch(filter_matches)
+    if not active:
+        vc.ensure("inactive.no_cookie_attached", And(len(formatted) == 0, deep_eq(vc, fields, [list(x) for x in pre_fields]), not has_meta))
+        return
+    took = {0: (False, False), 1: (False, True), 2: (True, False), 3: (True, True)}.get(len(observed))
+    vc.ensure("list.length", took is not None)
+    if took is None:
+        return
+    for j in range(2):
+        d_j, p_j, c_j = keys[j]
+        vc.ensure(f"entry{j}.domain_matched_against_request_host", True if j >= len(dm_calls) else deep_eq(vc, list(dm_calls[j]), [host, d_j]))
+        spec_j = And(dms[j], port == p_j, spec_path_match(vc, path, c_j))
+        # KF-C54-2: bare prefix test on the whole request target: "/foo" is taken to match "/foobar"
+        K2 = And(dms[j], port == p_j, startswith(path, c_j), Not(spec_path_match(vc, path, c_j)))
+        vc.ensure_kf(f"entry{j}.attached_only_if_domain_port_and_path_match", Implies(took[j], spec_j), "KF-C54-2", K2)
+        vc.ensure(f"entry{j}.attached_if_domain_port_and_path_match", Implies(spec_j, took[j]))
+    exp = [list(kv) for j in range(2) if took[j] for kv in items[j]]
+    vc.ensure("list.exactly_the_cookies_of_attached_entries_in_jar_order", deep_eq(vc, observed, exp))
+    if observed:
+        vc.ensure("header.set_once_to_formatted_list", deep_eq(vc, fields, [list(x) for x in post_fields]))
+        vc.ensure("metadata.marked", has_meta)
+    else:
+        vc.ensure("nothing_attached.request_untouched", And(deep_eq(vc, fields, [list(x) for x in pre_fields]), not has_meta))
